@@ -8,13 +8,19 @@
    (Robust/WellFormed.v -- a type system over expressions; evaluated by the runner on every generated template) resolves
    without any error; the action walk fails exactly on a non-textual Action value (never once the C10 guard is present);
    the resolver has no unsupported leaf; the instrumented walk is linear in the number of nodes with a typed atom
-   (network, date, bytes) costing one step whatever its magnitude.
+   (network, date, bytes) costing one step whatever its magnitude; the RESOLVER instrumented with a step counter
+   (Robust/ResolveCost.v: resolve_c, cost rules next to the Python lines) computes the same result and its cost is at
+   most tsize v + refs v * psize e <= tsize v * (1 + psize e) -- sizes in nodes and characters, no magnitudes -- for the
+   walk cost of EVERY expression and for the full cost of expressions without Fn::Join / Fn::Split / Fn::Base64 /
+   Fn::Sub-with-variables; for those four the full cost includes the length of an intermediate text, which grows
+   geometrically with nesting (C05_resolve_full_cost_not_polynomial), so no polynomial bound exists and none is claimed;
+   the condition table is not costed.
    NOT provable and not claimed: wall time, memory, the interpreter, pydantic-core's validation (re-validation after
    resolve / expand) and the query methods -- those are executed in a resource-limited sandbox on every generated
    template and in a CIDR-width sweep (harness/props/c05.py): partial. *)
 From Coq Require Import List Bool NArith ZArith Lia.
 From PV Require Import Base.Str Base.Value Resolver.Consts Resolver.Text Resolver.Resolve Resolver.Spec Resolver.Template.
-From PV Require Import Robust.RConsts Robust.Validators Robust.ValidatorsFacts Robust.WellFormed Robust.NoError Robust.Cost Robust.ExampleTemplate.
+From PV Require Import Robust.RConsts Robust.Validators Robust.ValidatorsFacts Robust.WellFormed Robust.NoError Robust.Cost Robust.ResolveCost Robust.ExampleTemplate.
 Import ListNotations.
 Local Open Scope N_scope.
 
@@ -96,6 +102,83 @@ Theorem C05_typed_atom_unit_cost : forall guard exp K (k : tkind) (text : str),
   snd (expand_tree_c guard exp K (VTyped k text)) = 1%nat /\ vsize (VTyped k text) = 1%nat.
 Proof. intros. split; reflexivity. Qed.
 Print Assumptions C05_typed_atom_unit_cost.
+
+(* ---- cost of the modelled resolver (Robust/ResolveCost.v) ----
+   [resolve_c w e v]: [resolve e v] with a step counter.  1 step per node visited (a number, date or IP network is ONE
+   step), [vsize] of a parameter value / mapping leaf per Ref, Fn::ImportValue, Fn::FindInMap, Fn::Sub placeholder that
+   copies it, the length of an Fn::Sub text for its scan, and, times the weight [w], the size of the intermediate text
+   that Fn::Join produces / Fn::Split consumes / Fn::Base64 encodes / an Fn::Sub variable inserts.
+   [w = 1]: full cost.  [w = 0]: walk cost.  [tsize]: nodes + characters of the expression; [psize e]: nodes + characters
+   of all parameter values and mappings; [refs v]: the places of v that can copy a parameter value. *)
+Theorem C05_resolve_cost_same_result : forall (w : nat) (e : env) (v : value),
+  fst (resolve_c w e v) = resolve e v.
+Proof. exact resolve_c_result. Qed.
+Print Assumptions C05_resolve_cost_same_result.
+(* multiplicative because every Ref / placeholder may copy a whole parameter value (C05_example_cost_multiplicative) *)
+Theorem C05_resolve_cost_bound : forall (w : nat) (e : env) (v : value),
+  w = 0%nat \/ light v = true ->
+  (snd (resolve_c w e v) <= tsize v * (1 + psize e))%nat.
+Proof. exact resolve_c_bound. Qed.
+Print Assumptions C05_resolve_cost_bound.
+Theorem C05_resolve_cost_bound_refs : forall (w : nat) (e : env) (v : value),
+  w = 0%nat \/ light v = true ->
+  (snd (resolve_c w e v) <= tsize v + refs v * psize e)%nat.
+Proof. exact resolve_c_bound_refs. Qed.
+Print Assumptions C05_resolve_cost_bound_refs.
+(* the two readings of the hypothesis *)
+Theorem C05_resolve_walk_cost_bound : forall (e : env) (v : value),
+  (snd (resolve_c 0 e v) <= tsize v * (1 + psize e))%nat.
+Proof. exact resolve_c_walk_bound. Qed.
+Print Assumptions C05_resolve_walk_cost_bound.
+Theorem C05_resolve_full_cost_bound_light : forall (e : env) (v : value), light v = true ->
+  (snd (resolve_c 1 e v) <= tsize v * (1 + psize e))%nat.
+Proof. exact resolve_c_light_bound. Qed.
+Print Assumptions C05_resolve_full_cost_bound_light.
+Theorem C05_resolve_atom_unit_cost : forall (w : nat) (e : env) (k : tkind) (text : str) (z : Z),
+  snd (resolve_c w e (VTyped k text)) = 1%nat /\ snd (resolve_c w e (VInt z)) = 1%nat.
+Proof. intros. split; reflexivity. Qed.
+Print Assumptions C05_resolve_atom_unit_cost.
+(* the resources of a template: the sum *)
+Theorem C05_resources_cost_same_result : forall (w : nat) (e : env) (resolved : list (str * bool)) (rs : list (str * value)),
+  fst (resolve_resources_c w e resolved rs) = resolve_resources e resolved rs.
+Proof. exact resolve_resources_c_result. Qed.
+Print Assumptions C05_resources_cost_same_result.
+Theorem C05_resources_cost_bound : forall (w : nat) (e : env) (resolved : list (str * bool)) (rs : list (str * value)),
+  w = 0%nat \/ forallb (fun kv => light (snd kv)) rs = true ->
+  (snd (resolve_resources_c w e resolved rs) <= tsize (VDict rs) * (1 + psize e))%nat.
+Proof. exact resolve_resources_c_bound_sizes. Qed.
+Print Assumptions C05_resources_cost_bound.
+(* why the full cost of nested Fn::Join has NO polynomial bound: S = "ab", L = ["a","b","c"],
+   jn 0 = {"Ref":"S"}, jn (d+1) = {"Fn::Join": [jn d, {"Ref":"L"}]}: 18 characters more per level, at least twice the steps *)
+Theorem C05_resolve_full_cost_not_polynomial : forall d : nat,
+  tsize (cx_jn d) = (7 + 18 * d)%nat /\ (2 ^ d <= snd (resolve_c 1 cx_env2 (cx_jn d)))%nat.
+Proof. exact cx_join_blowup. Qed.
+Print Assumptions C05_resolve_full_cost_not_polynomial.
+(* a concrete expression (two Refs to a 20-element list, a /8 network, a number, an Fn::Sub with two placeholders):
+   66 steps; bound 60 + 4 * 52 = 268 *)
+Example C05_example_cost_not_vacuous :
+  light (cx_expr cx_net8) = true /\ is_ok (fst (resolve_c 1 cx_env (cx_expr cx_net8))) = true /\
+  snd (resolve_c 1 cx_env (cx_expr cx_net8)) = 66%nat /\
+  tsize (cx_expr cx_net8) = 60%nat /\ refs (cx_expr cx_net8) = 4%nat /\ psize cx_env = 52%nat.
+Proof. exact cx_bound_not_vacuous. Qed.
+(* 10.0.0.0/8 (16 777 216 addresses) costs what 10.0.0.0/32 costs *)
+Example C05_example_cost_network_width :
+  snd (resolve_c 1 cx_env (cx_expr cx_net8)) = snd (resolve_c 1 cx_env (cx_expr cx_net32)).
+Proof. exact cx_network_width_irrelevant. Qed.
+(* ten Refs copy the list ten times: 231 steps > tsize + psize = 71 + 52; bound 71 + 10 * 52 *)
+Example C05_example_cost_multiplicative :
+  snd (resolve_c 1 cx_env cx_tenrefs) = 231%nat /\ tsize cx_tenrefs = 71%nat /\ refs cx_tenrefs = 10%nat /\
+  light cx_tenrefs = true.
+Proof. exact cx_multiplicative. Qed.
+(* depth 8 of the nested Fn::Join: full cost above tsize * (1 + psize), walk cost 59 *)
+Example C05_example_join_blowup :
+  Nat.ltb (tsize (cx_jn 8) * (1 + psize cx_env2)) (snd (resolve_c 1 cx_env2 (cx_jn 8))) = true /\
+  snd (resolve_c 0 cx_env2 (cx_jn 8)) = 59%nat.
+Proof. exact cx_join_blowup_8. Qed.
+Example C05_example_sub_blowup :
+  Nat.ltb (tsize (cx_jdbl 12) * (1 + psize cx_env2)) (snd (resolve_c 1 cx_env2 (cx_jdbl 12))) = true /\
+  snd (resolve_c 0 cx_env2 (cx_jdbl 12)) = 136%nat.
+Proof. exact cx_sub_blowup_12. Qed.
 
 (* ---- the hypotheses are satisfiable: the template of corpus/C05.json (see Robust/ExampleTemplate.v) ---- *)
 Definition dict_of (v : value) : list (str * value) := match v with VDict d => d | _ => [] end.
